@@ -69,6 +69,7 @@ def tasks(tier):
     for comp in ('Num2Bits', 'Bits2Num', 'Num2Bits_strict'):
         for nargs in (1, 2):
             ts.append({'part': 'nonstrict', 'comp': comp, 'nargs': nargs})
+            ts.append({'part': 'nonstrict', 'comp': comp, 'nargs': nargs, 'element': True})       # `c[0] = Num2Bits(n)`: the call sits under an Update
     ts += [{'part': 'lessthan', 'n2b': nm} for nm in ('Num2Bits', 'Num2Bits_strict')]
     return ts
 
@@ -193,7 +194,9 @@ def run_task(task):
             ty = [ir.vtype('component'), ir.vtype('local'), ir.vtype('signal'), None][k]
             arg = ir.variable('m', meta=ir.meta(12, 13, value=ir.fe(n) if kn else None))
             args = [arg] + [ir.number(1)] * (nargs - 1)
-            stmt = ir.subst('c', 'AssignLocalOrComponent', ir.call(comp, args, meta=ir.meta(10, 20)), meta=ir.meta(5, 25, vtype=ty))
+            call = ir.call(comp, args, meta=ir.meta(10, 20))
+            if task.get('element'): call = ir.update('c', [ir.array_access(ir.number(0))], call, meta=ir.meta(5, 25, vtype=ty))
+            stmt = ir.subst('c', 'AssignLocalOrComponent', call, meta=ir.meta(5, 25, vtype=ty))
             cfg = ir.cfg(ex, 'T', Enum('Curve', c), [ir.block(0, [stmt])], def_type=Enum('DefinitionType', dt))
             return [Ref([cfg], 0)]
 
@@ -274,7 +277,8 @@ def confirm(task, v, pr):
         if dtn == 'Function': return None, 'components cannot be declared in functions', None
         arg = str(m.get('n', 0)) if m.get('known') else 'n'
         args = ', '.join([arg] + ['1'] * (task['nargs'] - 1))
-        src = 'template %sT(n) {\n    signal input x;\n    component c = %s(%s);\n}\n' % ('custom ' if dtn == 'CustomTemplate' else '', task['comp'], args)
+        decl = 'component c[2];\n    c[0] = %s(%s);' % (task['comp'], args) if task.get('element') else 'component c = %s(%s);' % (task['comp'], args)
+        src = 'template %sT(n) {\n    signal input x;\n    %s\n}\n' % ('custom ' if dtn == 'CustomTemplate' else '', decl)
         out = analyze(CURVE_ARG[curve], src); got = count_id(out, 'CS0012') if out.startswith('OK') else out
         safe = m.get('known') and m.get('n', 0) < 254
         want = 1 if (curve == 'Bn254' and dtn == 'Template' and task['comp'] in ('Num2Bits', 'Bits2Num') and task['nargs'] == 1 and not safe) else 0
